@@ -152,8 +152,7 @@ def gen_cli(rng, n, tier):
 def impl_cli(case):
     # two input directories with one relative name in common; in2/a.txt is empty (expressions dividing by the size fail
     # for it only)
-    with common.Sandbox({"in": None, "in/a.txt": "A", "in/b.txt": "BB", "in/sub": None, "in/sub/c": "C",
-                         "in2": None, "in2/a.txt": "", "in2/d.txt": "DDD"}) as root:
+    with common.Sandbox(TREE) as root:
         before = common.snapshot(root, with_ino=True)
         t = case["t"]
         if case["position"] == "name":
@@ -189,14 +188,16 @@ def impl_cli(case):
             # accepted as a whole: then it is accepted for each file on its own (a result remembered for one file must
             # not stand in for another file's)
             singles = []
-            for f in ALL_FILES:
-                o2, e2, rc2 = common.run_cli(case["aliases"] + args_for(case, root, str(root / f), recursive=False))
-                singles.append(rc2)
+            with common.Sandbox(TREE) as fresh:      # (the accepted run has renamed the files of the first tree)
+                for f in ALL_FILES:
+                    o2, e2, rc2 = common.run_cli(case["aliases"] + args_for(case, fresh, str(fresh / f), recursive=False))
+                    singles.append(rc2)
             obs["accepted_singles"] = singles
         return obs
 
 
 ALL_FILES = ("in/a.txt", "in/b.txt", "in/sub/c", "in2/a.txt", "in2/d.txt")
+TREE = {"in": None, "in/a.txt": "A", "in/b.txt": "BB", "in/sub": None, "in/sub/c": "C", "in2": None, "in2/a.txt": "", "in2/d.txt": "DDD"}
 
 
 def args_for(case, root, target, recursive=True):
